@@ -96,6 +96,11 @@ Definition s_set_play_from (s : song) (v : Z) : song :=
          (s_harmony_flag s) (s_harmony_time s) (s_harmony_events s) (s_octave_once s) (s_break_flag s)
          (s_tempo s) (s_timesig_frac s) (s_timesig_deno s) (s_measure_shift s) v (s_lineno s) (s_logs s).
 
+Definition s_set_time (s : song) (tempo frac deno mshift : Z) : song :=
+  mkSong (s_tracks s) (s_cur s) (s_timebase s) (s_key_flag s) (s_key_shift s) (s_use_key_shift s) (s_v_add s) (s_q_add s)
+         (s_harmony_flag s) (s_harmony_time s) (s_harmony_events s) (s_octave_once s) (s_break_flag s)
+         tempo frac deno mshift (s_play_from s) (s_lineno s) (s_logs s).
+
 (* add_log: bounded by SAKURA_MAX_LOGS *)
 Definition add_log (s : song) (msg : list ch) : song :=
   if SAKURA_MAX_LOGS <=? zlen (s_logs s) then s else s_set_logs s (s_logs s ++ [msg]).
